@@ -790,6 +790,10 @@ class GridDevice(cirq.Device):
             ):
                 raise ValueError(f'Qubit pair is not valid on device: {operation.qubits!r}.')
 
+            if isinstance(operation.untagged, cirq.CircuitOperation):
+                # The operations inside a sub-circuit have to respect the pairs of the device too.
+                self._validate_operations(operation.untagged.mapped_circuit().all_operations())
+
     def __str__(self) -> str:
         diagram = cirq.TextDiagramDrawer()
 
